@@ -141,6 +141,8 @@ type Blocks struct {
 	Log     *EffectLog
 	Missing map[string]bool // hashes whose fetch fails (fault injection)
 	Reads   int
+	// OnRead, if set, is called at the start of every Read with the running read count (fault injection).
+	OnRead func(n int, hash string)
 	// Peers are block stores of connected peers: a block missing locally is
 	// fetched from them and then stored locally (as bitswap does).
 	Peers []*Blocks
@@ -282,6 +284,13 @@ func (io *IO) Write(ctx context.Context, ipfs coreiface.CoreAPI, obj interface{}
 func (io *IO) Read(ctx context.Context, ipfs coreiface.CoreAPI, c cid.Cid) (format.Node, error) {
 	io.B.mu.Lock()
 	io.B.Reads++
+	nread := io.B.Reads
+	hook := io.B.OnRead
+	io.B.mu.Unlock()
+	if hook != nil {
+		hook(nread, c.String())
+	}
+	io.B.mu.Lock()
 	obj, ok := io.B.objs[c.String()]
 	missing := io.B.Missing[c.String()]
 	peers := io.B.Peers
